@@ -83,21 +83,29 @@ pub fn run_ports(out: &mut Out, seed: u64, _n: u64) {
                     let p = (base + d) as u16;
                     let v = wval(w, base + d, seed);
                     given.push(v);
-                    unsafe {
+                    // a panic of the code under test is data (count -2), never a harness failure
+                    let r = catch(|| unsafe {
                         match (w, kind, write) {
-                            (1, "rw", false) => { let r = Port::<u8>::new(p).read(); blk_record(&mut b, r as u64) }
-                            (2, "rw", false) => { let r = Port::<u16>::new(p).read(); blk_record(&mut b, r as u64) }
-                            (4, "rw", false) => { let r = Port::<u32>::new(p).read(); blk_record(&mut b, r as u64) }
-                            (1, "ro", false) => { let r = PortReadOnly::<u8>::new(p).read(); blk_record(&mut b, r as u64) }
-                            (2, "ro", false) => { let r = PortReadOnly::<u16>::new(p).read(); blk_record(&mut b, r as u64) }
-                            (4, "ro", false) => { let r = PortReadOnly::<u32>::new(p).read(); blk_record(&mut b, r as u64) }
-                            (1, "rw", true) => { Port::<u8>::new(p).write(v as u8); blk_record(&mut b, 0) }
-                            (2, "rw", true) => { Port::<u16>::new(p).write(v as u16); blk_record(&mut b, 0) }
-                            (4, "rw", true) => { Port::<u32>::new(p).write(v as u32); blk_record(&mut b, 0) }
-                            (1, "wo", true) => { PortWriteOnly::<u8>::new(p).write(v as u8); blk_record(&mut b, 0) }
-                            (2, "wo", true) => { PortWriteOnly::<u16>::new(p).write(v as u16); blk_record(&mut b, 0) }
-                            (4, "wo", true) => { PortWriteOnly::<u32>::new(p).write(v as u32); blk_record(&mut b, 0) }
+                            (1, "rw", false) => Port::<u8>::new(p).read() as u64,
+                            (2, "rw", false) => Port::<u16>::new(p).read() as u64,
+                            (4, "rw", false) => Port::<u32>::new(p).read() as u64,
+                            (1, "ro", false) => PortReadOnly::<u8>::new(p).read() as u64,
+                            (2, "ro", false) => PortReadOnly::<u16>::new(p).read() as u64,
+                            (4, "ro", false) => PortReadOnly::<u32>::new(p).read() as u64,
+                            (1, "rw", true) => { Port::<u8>::new(p).write(v as u8); 0 }
+                            (2, "rw", true) => { Port::<u16>::new(p).write(v as u16); 0 }
+                            (4, "rw", true) => { Port::<u32>::new(p).write(v as u32); 0 }
+                            (1, "wo", true) => { PortWriteOnly::<u8>::new(p).write(v as u8); 0 }
+                            (2, "wo", true) => { PortWriteOnly::<u16>::new(p).write(v as u16); 0 }
+                            (4, "wo", true) => { PortWriteOnly::<u32>::new(p).write(v as u32); 0 }
                             _ => unreachable!(),
+                        }
+                    });
+                    match r {
+                        Some(ret) => blk_record(&mut b, ret),
+                        None => {
+                            blk_record(&mut b, 0);
+                            *b.counts.last_mut().unwrap() = -2;
                         }
                     }
                 }
